@@ -472,7 +472,7 @@ func parseCfg(head, keys string) (cfg, error) {
 }
 
 func parseReplay(arg string) (cfg, []label, error) {
-	arg = strings.TrimPrefix(strings.TrimPrefix(arg, "stress:"), "burst:")
+	arg = strings.TrimPrefix(strings.TrimPrefix(strings.TrimPrefix(arg, "stress:"), "burst:"), "batch:")
 	parts := strings.Split(arg, "|")
 	if len(parts) != 3 {
 		return cfg{}, nil, errors.New("replay argument: want variant,ratio,prime|keys|labels")
